@@ -29,7 +29,7 @@ type c16Case struct {
 	Seed      string   `json:"seed"`
 }
 
-var c16AE = []string{"", "gzip", "deflate", "br", "zstd", "gzip, deflate", "br;q=1.0, gzip;q=0.5", "identity", "*", "x-br-custom", "xgzip", "bread, undeflated", "GZIP", "gzip;q=0", "compress, zstd"}
+var c16AE = []string{"", "gzip", "deflate", "br", "zstd", "gzip, deflate", "br;q=1.0, gzip;q=0.5", "identity", "*", "x-br-custom", "xgzip", "bread, undeflated", "GZIP", "GZip", "DEFLATE;q=0.8", "Br", "ZStd", "gzip;q=0", "compress, zstd"}
 var c16J = []string{"0", "7", "42", "007", "", "abc", "1a2b3", "12);alert(1);//", "</script><script>alert(1)</script>", "٣", "１２", "-5", "1e3", " 9 "}
 
 func genC16(rng *rand.Rand) c16Case {
@@ -136,7 +136,10 @@ func runC16(c c16Case, rng *rand.Rand, r *rep.Report) (key, msg string, stats ma
 						sock.Send(mkReader(*m), mkOptions(*m, c01Case{Rev: c.Rev, B64: c.B64}), nil)
 					}
 					rig.Wait()
-					cl.PollStart().Wait()
+					if _, ok := cl.PollStart().WaitFor(5 * time.Second); !ok {
+						key, msg = "c16-poll-not-answered", fmt.Sprintf("a poll with Accept-Encoding %q was not answered within 5 s although a batch was waiting", c.AcceptEnc)
+						return
+					}
 					rig.Wait()
 				}
 			}
